@@ -54,6 +54,16 @@ func (db *DB) queryForRemote(ctx context.Context, sqlString string, isSubQuery b
 		db.log.Debugf("Processed query in %v, error?: %v : %v", elapsed(), err, sqlString)
 	}()
 	if unflat {
+		// unflatten the plan itself (not its recovering wrapper) so that a
+		// flatten at its root can be skipped; recover here instead
+		if rs, ok := source.(*recoveringSource); ok {
+			source = rs.FlatRowSource
+		}
+		defer func() {
+			if p := recover(); p != nil {
+				err = fmt.Errorf("Unable to execute query: %v", p)
+			}
+		}()
 		result, err = core.UnflattenOptimized(source).Iterate(ctx, onFields, onRow)
 	} else {
 		result, err = source.Iterate(ctx, onFields, onFlatRow)
